@@ -9,6 +9,7 @@ cp /repo/src/pyhf/_version.py "$wt/src/pyhf/_version.py" 2>/dev/null
 if ! git -C "$wt" apply "$p"; then echo "patch does not apply"; git -C /repo worktree remove --force "$wt"; exit 2; fi
 log=$(mktemp /tmp/seedtest-XXXXXX.log)
 cd /verif && VERIF_REPO="$wt" VERIF_WORK_SUFFIX="-seed$$" ./check "$id" "$tier" > "$log" 2>&1; rc=$?
+rm -rf "/verif/.work/coq-seed$$" "/verif/.work/$id-seed$$" "/verif/.lock-seed$$"
 git -C /repo worktree remove --force "$wt"
 grep -E "VIOLATION|KNOWN-FINDING|violation detail|Traceback|Error" "$log" | head -12
 echo "exit=$rc   (full log: $log)"
